@@ -135,7 +135,10 @@ def make_witness(run, idx, handler=None, preempt=None, snapshot=True, flavour="c
     flavour "lambda" builds the same thing through qucumber's LambdaCallback."""
     from qucumber.callbacks import CallbackBase, LambdaCallback
 
+    seen = {"n": 0}
+
     def ev(kind, nn_state, *args):
+        seen["n"] += 1
         if idx == 0 and preempt is not None:
             preempt.mark_event()
         dg = state_digest(nn_state) if snapshot else None
@@ -154,6 +157,11 @@ def make_witness(run, idx, handler=None, preempt=None, snapshot=True, flavour="c
         )
 
     class Witness(CallbackBase):
+        if flavour == "sized":
+            # a perfectly legal callback that is also a container of what it has seen: empty (falsy) at first
+            def __len__(self):
+                return seen["n"]
+
         def on_train_start(self, s):
             ev("TS", s)
 
